@@ -49,8 +49,16 @@ type Run struct {
 
 func NewRun() *Run { return &Run{toks: map[uintptr]int{}} }
 
+// MaxEvents bounds the events of one Parse: a parser that reduces or scans forever is stopped
+// by a panic (recorded as an event of its own) instead of filling memory.
+const MaxEvents = 4000
+
 func (r *Run) Emit(ev map[string]interface{}) {
 	r.mu.Lock()
+	if len(r.Events) >= MaxEvents && ev["ev"] != "panic" {
+		r.mu.Unlock()
+		panic("vlog: more than 4000 events in one Parse: the parser does not terminate")
+	}
 	defer r.mu.Unlock()
 	r.Events = append(r.Events, ev)
 	if !r.Quiet {
@@ -198,6 +206,7 @@ import (
 	"fmt"
 	"os"
 	"sync"
+	"time"
 
 	"scratch/vlog"
 )
@@ -376,7 +385,19 @@ func main() {
 						fmt.Printf("@@PARSE %d %d %d\n", oi, hi, ii)
 						run := vlog.NewRun()
 						run.FailAt = in.FailAt
+						// watchdog: a Parse that neither returns nor emits events (a silent
+						// reduce loop) ends the process with a marker the harness understands
+						done := make(chan struct{})
+						go func() {
+							select {
+							case <-done:
+							case <-time.After(20 * time.Second):
+								fmt.Printf("@@EV {\"ev\":\"hang\"}\n@@HANG %d %d %d\n", oi, hi, ii)
+								os.Exit(3)
+							}
+						}()
 						parse(in, run)
+						close(done)
 					}
 				}
 				fmt.Printf("@@END\n")
@@ -578,6 +599,8 @@ type ParseDriver struct {
 	seq int
 	// Race: excerpt of the race detector's report of the last run ("" if none)
 	Race string
+	// Hung: the last run was ended by the watchdog because a Parse did not return
+	Hung bool
 }
 
 // withLexGlue: set before BuildParseDriver to also link the generated lexers (text parsing)
@@ -620,6 +643,7 @@ func (d *ParseDriver) Run(ops []parseOp) ([]parseRes, string) {
 	mustWrite(in, mustJSON(ops))
 	r := runCmd(cmdOpts{Dir: filepath.Dir(d.Bin), Timeout: 15 * time.Minute}, d.Bin, in, out)
 	d.Race = ""
+	d.Hung = false
 	if k := strings.Index(r.Out, "WARNING: DATA RACE"); k >= 0 {
 		// the race detector reports and exits with status 66 after main has written the results
 		end := k + 3000
@@ -627,6 +651,10 @@ func (d *ParseDriver) Run(ops []parseOp) ([]parseRes, string) {
 			end = len(r.Out)
 		}
 		d.Race = r.Out[k:end]
+	} else if r.Code == 3 && strings.Contains(r.Stdout, "@@HANG") {
+		// a Parse did not return: the events up to the hang are on stdout, the result file is missing
+		d.Hung = true
+		return nil, r.Stdout
 	} else if r.Code != 0 {
 		infra("parser driver failed (code %d, timeout %v):\n%s", r.Code, r.TimedOut, tail(r.Out, 30))
 	}
